@@ -49,7 +49,7 @@ func runRenderHalf(ctx *core.Ctx) {
 		return
 	}
 	caught := map[string]bool{}
-	for _, dev := range []string{"innermost_frame_line", "callee_file", "line_from_other_source", "call_node_not_restored", "source_per_namespace"} {
+	for _, dev := range []string{"innermost_frame_line", "callee_file", "line_from_other_source", "call_node_not_restored", "source_per_namespace", "source_per_file_name"} {
 		r, err := ctx.RunTLC(core.TLCOpts{Module: "SoyErrPos", Cfg: errPosCfg(`"`+dev+`"`, false), Workers: 4, Timeout: 5 * time.Minute, Label: "errpos-deviation-" + dev})
 		if err != nil {
 			ctx.ToolError("%v", err)
@@ -86,12 +86,19 @@ func replayRender(ctx *core.Ctx, pc *posCase) {
 	// a second file declaring the entry template's namespace, added before or after it
 	if tw, _ := pc.D["twin"].(string); tw != "" && tw != "none" {
 		twin := core.File{Name: "twin.soy", Text: strings.Join(pc.Twin, "\n") + "\n"}
-		if tw == "first" {
+		if strings.HasPrefix(tw, "name") {
+			twin.Name = "entry.soy" // another namespace under the entry file's name
+		}
+		if tw == "first" || tw == "namefirst" {
 			files = append([]core.File{twin}, files...)
 		} else {
 			files = append(files, twin)
 		}
-		feat += ",same-namespace-file-added-" + tw
+		if strings.HasPrefix(tw, "name") {
+			feat += ",same-name-file-added-" + strings.TrimPrefix(tw, "name")
+		} else {
+			feat += ",same-namespace-file-added-" + tw
+		}
 	}
 	allowed := map[int]bool{}
 	for _, l := range pc.Allowed {
